@@ -329,7 +329,8 @@ def oracle_pack(f, out):
 
 
 def out_ms(ms, rate):
-    return ((ms * rate // 1000) % (1 << 32)) // (rate // 1000)
+    # milliseconds of an rtp timestamp: floor(ts * 1000 / rate)  (C07 fix e6bc8fd; was ts // (rate // 1000))
+    return ((ms * rate // 1000) % (1 << 32)) * 1000 // rate
 
 
 def schedule_of(tok, n):
@@ -709,7 +710,7 @@ def gen_foreign(rng, nmut):
         ts = rng.randrange(1 << 32)
         arr = [(seq, ts, body)]
         line = "c12.unpack aac %d 4 %s" % (rate, ",".join("%d:%d:%s" % (s, t, hex_tok(b)) for s, t, b in arr))
-        UNPACK_EXPECT[line] = [(ts // (rate // 1000) + (i * 1024000 // rate), a) for i, a in enumerate(aus)]
+        UNPACK_EXPECT[line] = [(ts * 1000 // rate + (i * 1024000 // rate), a) for i, a in enumerate(aus)]
         base.append(("aac", rate, 4, arr))
         yield Case(line, cls="unpack-aac-multi")
         # fragmented
